@@ -1054,3 +1054,24 @@ rename("c20-r-rename-private", "C20", [
     (PGC, "_plot_machine_schedules", "_draw_machines"), (PGC, "_plot_scheduled_operation", "_draw_bar"),
     (PGC, "_configure_axes", "_setup_axes"), (PGC, "_configure_legend", "_setup_legend"), (PGC, "_get_job_label", "_label_of"),
 ])
+
+# ------------------------------------------------------------------ round-3 additions
+refactor("c15-r-len-guards-zip", "C15", SCH,
+         "        return self.schedule == value.schedule",
+         "        if len(self.schedule) != len(value.schedule):\n            return False\n"
+         "        if self.num_scheduled_operations != value.num_scheduled_operations:\n            return False\n"
+         "        return all(a == b for a, b in zip(self.schedule, value.schedule))",
+         "length guard + zip over the machine lists, inner lists compared with list ==")
+mutant("c15-zip-truncates", "C15", "R15.a", SCH,
+       "        return self.schedule == value.schedule",
+       "        if len(self.schedule) != len(value.schedule):\n            return False\n"
+       "        return all(x == y for a, b in zip(self.schedule, value.schedule) for x, y in zip(a, b))",
+       "round-3 seed C15-u1VF: inner zip truncates")
+mutant("c12-sched-reset-shortcut", "C12", "R12.c", SCH,
+       '        """Resets the schedule to an empty state."""\n        self.schedule = [[]',
+       '        """Resets the schedule to an empty state."""\n        if self.makespan() == 0:\n            return\n        self.schedule = [[]',
+       "round-3 seed C02-u2VB: 'already empty' shortcut that is wrong for zero durations")
+mutant("c12-makespan-reward-shortcut", "C12", "R12.a", REW,
+       "        super().reset()\n        self.current_makespan = self.dispatcher.schedule.makespan()",
+       "        super().reset()\n        if self.dispatcher.schedule.is_complete():\n            return\n        self.current_makespan = self.dispatcher.schedule.makespan()",
+       "an early return in an observer's reset skips an attribute update() advances")
